@@ -208,6 +208,36 @@ def step (t : List String) : String :=
       fmtCx p0 p1 (babinetBackT p0 p1 M0 M1 (cxOfList f 0 p0) (cxOfList f o1 M1) (cxOfList f o2 M1)
         (cxOfList f o3 M0) (cxOfList f o4 p1) (cxOfList f o5 p1) (cxOfList f o6 p1)).fn
     | _, _ => "bad-op"
+  | "resbp" :: a :: b :: c :: d :: rest =>       -- m n M N | cb | G1 (m×m) G2 (n×n) Eo (M×m) Ei (n×N) y (M×N)   fourier_resample_backprop
+    match nats? [a, b, c, d], floats? rest with
+    | some [m, n, M, N], some f =>
+      if f.size ≠ 1 + 2 * (m * m + n * n + M * m + n * N + M * N) then "bad-op" else
+      let o1 := 1 + 2 * m * m
+      let o2 := o1 + 2 * n * n
+      let o3 := o2 + 2 * M * m
+      let o4 := o3 + 2 * n * N
+      let r := resampleBackT Cx.conj m n M N (m - m / 2) (n - n / 2) (m / 2) (n / 2)
+        (cxOfList f 1 m) (cxOfList f o1 n) (cxOfList f o2 m) (cxOfList f o3 N) (Cx.ofReal f[0]!) (cxOfList f o4 N)
+      -- the routine returns the real part (`.real`)
+      " ".intercalate ((List.range (m * n)).map fun t => fmtFloat (r.fn (t / n) (t % n)).re)
+    | _, _ => "bad-op"
+  | "mcost" :: kind :: a :: b :: rest =>       -- kind cnt n | idx (cnt positions) | x (n) d (n)  -> masked cost, scattered gradient (n)
+    match nats? [a, b] with
+    | some [cnt, n] =>
+      match nats? (rest.take cnt), floats? (rest.drop cnt) with
+      | some il, some f =>
+        if il.length ≠ cnt ∨ f.size ≠ 2 * n then "bad-op" else
+        let ia := il.toArray
+        let idx : Nat → Nat := fun k => ia.getD k 0
+        let x := compress idx (reOfList f 0)
+        let dd := compress idx (reOfList f n)
+        match kind with
+        | "mse" => fmtFloat (mseCost cnt x dd) ++ " " ++ fmtRe n (scatterMask cnt idx (mseGrad cnt x dd))
+        | "bgie" => fmtFloat (bgieCost cnt x dd) ++ " " ++ fmtRe n (scatterMask cnt idx (bgieGrad cnt x dd))
+        | "nll" => fmtFloat (nllCost Float.log cnt x dd) ++ " " ++ fmtRe n (scatterMask cnt idx (nllGrad cnt x dd))
+        | _ => "bad-op"
+      | _, _ => "bad-op"
+    | _ => "bad-op"
   | "dmbpi" :: rest =>       -- m n k loy sty lox stx M N mode oy ox | scale | H (m×n complex) | y (M×N real)
     match nats? (rest.take 12), floats? (rest.drop 12) with
     | some [m, n, k, loy, sty, lox, stx, M, N, mode, oy, ox], some f =>
